@@ -22,7 +22,7 @@ func (c17) Size(tier string) Size {
 	return Size{Batches: 8, Cases: 1500}
 }
 func (c17) Rule() string {
-	return "case = one type spec (0-8 attributes over the 28 kinds, 0-3 relationships) materialised twice, as a soft type and as a reflect.StructOf struct (declaration order shuffled in half of them, 0-3 untagged fields in between), and ONE history of 1-40 well-typed Set calls (pool values, typed and untyped nil, Set on id) applied to both side by side; after every call every field of both is read back and compared with a last-writer-wins map model; fresh resources from Type.New, SoftResource.New, Wrapper.New must read all-zero with the type's name and fields. Equality laws (reflexive, symmetric, false on every single-change pair: type name, field name, one value - including null against a pointer to the kind's zero value -, ID) on resources derived from the final state. Type-name pairs include a soft type without a name and a case variant. Non-trivial = history touching >= 2 fields with >= 1 overwrite."
+	return "case = one type spec (0-8 attributes over the 28 kinds, 0-3 relationships) materialised twice, as a soft type and as a reflect.StructOf struct (declaration order shuffled in half of them, 0-3 untagged fields in between), and ONE history of 1-40 well-typed Set calls (pool values, typed and untyped nil, Set on id) applied to both side by side; after every call every field of both is read back and compared with a last-writer-wins map model; fresh resources from Type.New, SoftResource.New, Wrapper.New must read all-zero with the type's name and fields. Equality laws (reflexive, symmetric, false on every single-change pair: type name, field name, one value - including null against a pointer to the kind's zero value -, ID) on resources derived from the final state. Type-name pairs include a soft type without a name and a case variant. Every eighth case gives two nullable attributes of one kind the same pointer and then sets one of them again. Non-trivial = history touching >= 2 fields with >= 1 overwrite."
 }
 func (c17) Assumptions() []string {
 	return []string{"normalisation stated by the property: untyped nil == typed nil pointer for nullable kinds; nil byte slice == empty byte slice; nil []string == empty list",
@@ -47,6 +47,7 @@ type c17call struct {
 	One    *string  `json:"to_one,omitempty"`
 	Many   []string `json:"to_many,omitempty"`
 	IsMany bool     `json:"is_many,omitempty"`
+	Reuse  bool     `json:"same_pointer_as_previous_call,omitempty"` // the very pointer given to the previous call is given again (to another field)
 }
 
 func genC17Type(r *RNG, name string) TypeSpec {
@@ -111,6 +112,10 @@ func implName(t *TypeSpec) string {
 }
 
 func (m c17) Case(c *Ctx, r *RNG) {
+	if c.Index%8 == 5 {
+		m.twinCase(c, r)
+		return
+	}
 	base := genC17Type(r, r.Pick(typeNamePool))
 	soft, wrapped := base, base
 	soft.Wrapped, wrapped.Wrapped = false, true
@@ -150,6 +155,38 @@ func (m c17) Case(c *Ctx, r *RNG) {
 		c.Sample(map[string]any{"type": base, "history": calls})
 	}
 	m.run(c, specs, calls)
+}
+
+// twinCase: two nullable attributes of the same kind are given the SAME pointer (a caller that sets created and
+// updated from one variable), then one of them is set again. The other one still reads what it was given: a
+// resource that keeps a pointer it was handed must not write through it.
+func (m c17) twinCase(c *Ctx, r *RNG) {
+	k := allKinds[r.Intn(len(allKinds))]
+	base := genC17Type(r, r.Pick(typeNamePool))
+	base.Attrs = append(filterAttrs(filterAttrs(base.Attrs, "twin-a"), "twin-b"), AttrSpec{Name: "twin-a", Kind: k, Null: true}, AttrSpec{Name: "twin-b", Kind: k, Null: true})
+	soft, wrapped := base, base
+	soft.Wrapped, wrapped.Wrapped = false, true
+	nonNil := func() *Val {
+		for {
+			v := genVal(r, k, true)
+			if !v.IsNil() {
+				return &v
+			}
+		}
+	}
+	first, second := "twin-a", "twin-b"
+	if r.Bool() {
+		first, second = second, first
+	}
+	calls := []c17call{{Field: first, Val: nonNil()}}
+	calls = append(calls, c17call{Field: second, Val: calls[0].Val, Reuse: true})
+	again := []string{first, second}[r.Intn(2)]
+	calls = append(calls, c17call{Field: again, Val: nonNil()})
+	if r.Bool() {
+		calls = append(calls, c17call{Field: []string{first, second}[r.Intn(2)], Val: nonNil()})
+	}
+	c.Count("twin_pointer_histories")
+	m.run(c, []*TypeSpec{&soft, &wrapped}, calls)
 }
 
 func (m c17) run(c *Ctx, specs []*TypeSpec, calls []c17call) {
@@ -200,11 +237,22 @@ func (m c17) run(c *Ctx, specs []*TypeSpec, calls []c17call) {
 		return
 	}
 	touched := map[string]int{}
+	var prevGo any
 	for i, call := range calls {
+		var thisGo any
+		if call.Val != nil {
+			thisGo = call.Val.Go()
+			if call.Reuse && prevGo != nil {
+				thisGo = prevGo
+			}
+			prevGo = thisGo
+		}
 		for ri, res := range ress {
 			res := res
 			if pi := Guard(func() {
 				switch {
+				case call.Val != nil && (call.Reuse || (i+1 < len(calls) && calls[i+1].Reuse)):
+					res.Set(call.Field, thisGo) // the same pointer for both implementations and for both fields
 				case call.Val != nil:
 					res.Set(call.Field, call.Val.Go())
 				case call.IsMany:
